@@ -139,3 +139,100 @@ cross!(cross_renamed, nm::base::P, nm::base::P { a: kani::any(), b: kani::any() 
 cross!(cross_layout, nm::base::Z, nm::base::Z { a: kani::any(), b: kani::any() }, nm::repr::Z, 128);
 // @h cross_toggled props=C04 tier=thorough kind=complete vars="v:base::P read as toggled::P (zero-copy)" fns="deser/mod.rs:check_header"
 cross!(cross_toggled, nm::base::P, nm::base::P { a: kani::any(), b: kani::any() }, nm::toggled::P, 128);
+
+/// digest of a pinned recipe: the items are fed the way `str::hash` / `usize::hash` feed them
+pub enum It {
+    S(&'static str),
+    U(usize),
+}
+pub fn recipe_digest(items: &[It]) -> u64 {
+    use core::hash::Hash;
+    let mut h = xxhash_rust::xxh3::Xxh3::new();
+    for it in items {
+        match it {
+            It::S(s) => s.hash(&mut h),
+            It::U(u) => u.hash(&mut h),
+        }
+    }
+    h.finish()
+}
+macro_rules! pinned {
+    ($t:ty, $($it:expr),+) => {
+        assert!(digests::<$t>().0 == recipe_digest(&[$($it),+]),
+            "[C06/typehash.pinned] the type hash is the published function of the type's structure (format 1.1 names)");
+    };
+}
+
+// The names below are those of format version 1.1 as published (contracts/FORMAT.md);
+// a symmetric change of the hashed spelling (writer and reader share the impl) keeps
+// every round trip and every near-miss comparison intact and is visible only here.
+// @h th_pinned_ints props=C06,C04 tier=quick kind=complete vars="closed terms: the 12 integer primitives" fns="impls/prim.rs:TypeHash (impl_prim_type_hash!)"
+#[kani::proof]
+#[kani::unwind(20)]
+pub fn th_pinned_ints() {
+    pinned!(u8, It::S("u8"));
+    pinned!(u16, It::S("u16"));
+    pinned!(u32, It::S("u32"));
+    pinned!(u64, It::S("u64"));
+    pinned!(u128, It::S("u128"));
+    pinned!(usize, It::S("usize"));
+    pinned!(i8, It::S("i8"));
+    pinned!(i16, It::S("i16"));
+    pinned!(i32, It::S("i32"));
+    pinned!(i64, It::S("i64"));
+    pinned!(i128, It::S("i128"));
+    pinned!(isize, It::S("isize"));
+}
+
+// @h th_pinned_misc props=C06,C04 tier=quick kind=complete vars="closed terms: f32, f64, bool, char, unit" fns="impls/prim.rs:TypeHash (impl_prim_type_hash!)"
+#[kani::proof]
+#[kani::unwind(20)]
+pub fn th_pinned_misc() {
+    pinned!(f32, It::S("f32"));
+    pinned!(f64, It::S("f64"));
+    pinned!(bool, It::S("bool"));
+    pinned!(char, It::S("char"));
+    pinned!((), It::S("()"));
+}
+
+// @h th_pinned_nonzero props=C06,C04 tier=quick kind=complete vars="closed terms: the 12 non-zero integer types" fns="impls/prim.rs:TypeHash (impl_prim_type_hash!)"
+#[kani::proof]
+#[kani::unwind(20)]
+pub fn th_pinned_nonzero() {
+    use core::num::*;
+    pinned!(NonZeroU8, It::S("NonZeroU8"));
+    pinned!(NonZeroU16, It::S("NonZeroU16"));
+    pinned!(NonZeroU32, It::S("NonZeroU32"));
+    pinned!(NonZeroU64, It::S("NonZeroU64"));
+    pinned!(NonZeroU128, It::S("NonZeroU128"));
+    pinned!(NonZeroUsize, It::S("NonZeroUsize"));
+    pinned!(NonZeroI8, It::S("NonZeroI8"));
+    pinned!(NonZeroI16, It::S("NonZeroI16"));
+    pinned!(NonZeroI32, It::S("NonZeroI32"));
+    pinned!(NonZeroI64, It::S("NonZeroI64"));
+    pinned!(NonZeroI128, It::S("NonZeroI128"));
+    pinned!(NonZeroIsize, It::S("NonZeroIsize"));
+}
+
+// @h th_pinned_ctors props=C06,C04 tier=quick kind=complete vars="closed terms: one instance of each built-in type constructor" fns="impls/*.rs:TypeHash"
+#[kani::proof]
+#[kani::unwind(30)]
+pub fn th_pinned_ctors() {
+    pinned!(Vec<u8>, It::S("Vec"), It::S("u8"));
+    pinned!(Box<[u16]>, It::S("Box<[]>"), It::S("u16"));
+    pinned!(String, It::S("String"));
+    pinned!(Box<str>, It::S("Box<str>"));
+    pinned!(Option<u32>, It::S("Option"), It::S("u32"));
+    pinned!(core::marker::PhantomData<i8>, It::S("PhantomData"), It::S("i8"));
+    pinned!([u16; 3], It::S("[]"), It::U(3), It::S("u16"));
+    pinned!((u8, u8), It::S("()"), It::S("u8"), It::S("u8"));
+    pinned!(Bound<u8>, It::S("core::ops::Bound"), It::S("u8"));
+    pinned!(ControlFlow<u8, u16>, It::S("core::ops::ControlFlow"), It::S("u8"), It::S("u16"));
+    pinned!(core::ops::RangeFull, It::S("core::ops::RangeFull"));
+    pinned!(core::ops::Range<u8>, It::S("core :: ops :: Range"), It::S("u8"));
+    pinned!(core::ops::RangeTo<u8>, It::S("core :: ops :: RangeTo"), It::S("u8"));
+    pinned!(core::ops::RangeFrom<u8>, It::S("core :: ops :: RangeFrom"), It::S("u8"));
+    pinned!(core::ops::RangeInclusive<u8>, It::S("core :: ops :: RangeInclusive"), It::S("u8"));
+    pinned!(core::ops::RangeToInclusive<u8>, It::S("core :: ops :: RangeToInclusive"), It::S("u8"));
+    pinned!(&[u16], It::S("Vec"), It::S("u16"));
+}
